@@ -173,7 +173,10 @@ def run_case(case_id, tier, seed, shape, kw, level, opts):
                 rec.prove(P + '/block_end/%d' % g[-1], assume, level_t[g[-1]] == end, form='Q1',
                           info=dict(info0, kind='end', t=g[-1]))
         else:
-            rec.prove(P + '/end_level', assume, level_t[steps[-1]] == end, form='Q1', info=dict(info0, kind='end', t=steps[-1]))
+            rec.prove(P + '/end_level', assume + no_trig, level_t[steps[-1]] == end, form='Q1', info=dict(info0, kind='end', t=steps[-1]))
+            if trig is not None:
+                rec.prove(P + '/end_level[start>0 or inflow]', assume + [trig], level_t[steps[-1]] == end, form='Q1',
+                          info=dict(info0, kind='end', t=steps[-1]), known='KF-C05-msd' if kf_msd else None)
         if not coarse:
             for t in active:
                 rec.prove(P + '/rate_in/%d' % t, assume, charge[t] <= zl(st.cap_in) * dtv[t], form='Q1', info=dict(info0, kind='rate_in', t=t))
